@@ -71,6 +71,9 @@ fn sweep<E: Entry, S: IdxC<Idx<E>>>(ctx: &mut Ctx, st: &LiveStack<E, S>, full: b
         for (i, (item, v)) in items.into_iter().zip(model.iter()).enumerate() {
             E::check(item, v, Lvl::BASIC).map_err(|e| format!("iter() element {i}: {e}"))?;
         }
+        // iteration through nth / skip / step_by / count / last (each may be overridden by the
+        // stack's or the index container's iterator)
+        crate::check::adaptors_checked(|| fs.iter(), n, "iter()", &|k, x| E::check(x, &model[k], Lvl::BASIC))?;
         let items = drain_checked(fs.into_iter(), n, "into_iter()")?;
         for (i, (item, v)) in items.into_iter().zip(model.iter()).enumerate() {
             let o = item.into_owned();
